@@ -60,7 +60,8 @@ class Gen:
         if s.endswith("_"):
             s = s[:-1] + "x"
         if s.upper() in ("END", "GROUP", "OBJECT", "NULL", "TRUE", "FALSE", "END_GROUP", "END_OBJECT",
-                         "BEGIN_GROUP", "BEGIN_OBJECT"):
+                         "BEGIN_GROUP", "BEGIN_OBJECT", "NAN", "INF", "INFINITY"):
+            # keywords, and the three words Python's float() reads as numbers (recorded under C17)
             s += "1"
         return s
 
@@ -347,8 +348,11 @@ class Gen:
     def comment(self):
         r = self.r
         body = "".join(r.choice(LETTERS + " =;,(){}<>\"'#1-") for _ in range(r.randrange(0, 12)))
+        for ch in getattr(self, "_avoid", ""):
+            body = body.replace(ch, "")
         if self.t["hash"] and r.random() < 0.4:
-            return "#" + body.replace("/", "").replace("*", "") + "\n", True
+            # a '-' at the end of a line is the dialect's continuation mark, also inside a comment
+            return "#" + body.replace("/", "").replace("*", "").rstrip("-") + "\n", True
         return "/*" + body.replace("*/", "") + "*/", False
 
     def gap(self, required, after_token=True):
@@ -366,7 +370,16 @@ class Gen:
                 parts[-1] = ""
         return "".join(parts)
 
-    def render(self, stmts, layout_rng=None):
+    def render_pos(self, stmts, layout_rng=None, comment_free_of=""):
+        """like render, but also returns the offset of every token: (text, [(token, offset)])"""
+        self._avoid = comment_free_of
+        try:
+            text = self.render(stmts, layout_rng, _record=True)
+            return text, self._offsets
+        finally:
+            self._avoid = ""
+
+    def render(self, stmts, layout_rng=None, _record=False):
         """Join tokens with gaps: optional around = , ( ) { } ; and before <units>,
         required elsewhere (between two word-like tokens / statements)."""
         if layout_rng is not None:
@@ -378,7 +391,9 @@ class Gen:
                 for ti, tk in enumerate(st):
                     flat.append((tk, ti == 0))
             punct = set("=,(){};")
+            offs = []
             for i, (tk, first) in enumerate(flat):
+                offs.append((tk, sum(len(x) for x in out)))
                 out.append(tk)
                 if i + 1 < len(flat):
                     nxt = flat[i + 1][0]
@@ -387,6 +402,8 @@ class Gen:
                     # the grammar: the standards require white space between statements
                     out.append(self.gap(not opt))
             out.append(self.gap(False))
+            if _record:
+                self._offsets = offs
             return "".join(out)
         finally:
             if layout_rng is not None:
